@@ -152,7 +152,8 @@ R38 = [
      lambda m: 'vx_has_child_named(element, name)', 'R38'),
     (r'((?:\w+\.)*\w+)\.is_empty\(\)', lambda m: '(%s.len() == 0)' % m.group(1), 'R16'),
     (r'get_sub_element_version_mask\(&(\w+)\)', lambda m: 'get_sub_element_version_mask(%s.as_slice())' % m.group(1), 'R38'),
-    (r'find_common_group\((\w+), (\w+)\)', lambda m: 'find_common_group(%s, %s.as_slice())' % (m.group(1), m.group(2)), 'R38'),
+    # `new_elem_indices` is the `&Vec<usize>` parameter, `elem_indices` the slice: only the vector needs the conversion, in whatever position
+    (r'find_common_group\((\w+), (\w+)\)', lambda m: 'find_common_group(%s, %s)' % tuple((a + '.as_slice()') if a == 'new_elem_indices' else a for a in (m.group(1), m.group(2))), 'R38'),
 ]
 
 LEAVES = ['find_sub_element', 'get_sub_element_version_mask', 'find_common_group', 'ElementType.content_mode', 'GroupType.content_mode',
